@@ -212,6 +212,27 @@ func init() {
 		// analysis.Analyzer.ResultType (read by drivers, which are not executed); any use of the value is a
 		// nil-interface method call, i.e. a panic that the native replay will not confirm (fails closed).
 		"reflect.TypeOf": func(fr *frame, a []value) value { return iface{} },
+		// hash/maphash.Comparable (runtime memhash underneath): any deterministic function of the value is a valid hash; pointers
+		// are numbered in order of first use on the path, everything else is hashed through its printed form (FNV-1a)
+		"hash/maphash.Comparable": func(fr *frame, a []value) value {
+			i := fr.i
+			if p, ok := a[1].(*value); ok {
+				if i.ptrIDs == nil {
+					i.ptrIDs = map[*value]uint64{}
+				}
+				id, seen := i.ptrIDs[p]
+				if !seen {
+					id = uint64(len(i.ptrIDs)+1) * 0x9e3779b97f4a7c15
+					i.ptrIDs[p] = id
+				}
+				return id
+			}
+			h := uint64(14695981039346656037)
+			for _, c := range []byte(fmt.Sprintf("%T:%v", a[1], a[1])) {
+				h = (h ^ uint64(c)) * 1099511628211
+			}
+			return h
+		},
 		// the process environment is empty
 		"os.Getenv":    func(fr *frame, a []value) value { return "" },
 		"os.LookupEnv": func(fr *frame, a []value) value { return tuple{"", false} },
